@@ -95,7 +95,7 @@ def _num_values(rng, origin, cons):
 
 _STRS = ["", "a", "ab", "abc", "abcd", "abcde", "abcdef", "a" * 10, "a" * 11, "abab", "bc", "a|bc", "a.c", "axc", "a\nc", "abc\n",
          " abc", "ABC", "123", "12", "1234", "12345", "2020-01-02", "2020-1-2", "-1.5", "1.", "AbC1", "Ab", "red", "true", "1",
-         "é", "日本", "\x00"]
+         "é", "日本", "\x00", "1.5", "12.5", "abcd-1", "ab-1", "abcd-", "abcabc"]
 
 
 def _values_for(rng, origin, cons):
